@@ -263,7 +263,7 @@ def _is_signal(f, st):
         b = strip(kids(b)[0])
     if b["k"] == "ReturnStmt" and kids(b):
         v = strip(kids(b)[0])
-        if v["k"] == "UnaryOperator" and v["op"] == "-":
+        if v["k"] == "UnaryOperator" and v["op"] == "-" and strip(kids(v)[0])["k"] in ("IntegerLiteral", "FloatingLiteral"):
             return "returns " + render(v)
         return None
     if any(x["k"] == "CXXThrowExpr" for x in walk(b)) and b["k"] in ("CXXThrowExpr", "ExprWithCleanups"):
